@@ -133,8 +133,13 @@ class C17(Base):
                 cfg["N"] = rng.choice((0, 1, -1))
             if cfg["p"] and rng.random() < 0.2:
                 cfg["p"]["call"] = rng.choice(("np", "kw", "npkw", "pos"))
-            if "uf" in cfg["p"] and rng.random() < 0.3:
-                cfg["p"]["costs_int"] = True
+            if "uf" in cfg["p"]:
+                u = rng.random()
+                if u < 0.25:
+                    cfg["p"]["costs_int"] = True
+                elif u < 0.37:
+                    # numpy.float64 / fractions.Fraction costs
+                    cfg["p"]["costs_form"] = "np" if u < 0.33 else "frac"
         passes = 0 if cfg["cls"] == "None" else 1
         return Plan([(cfg, passes, "every")])
 
